@@ -352,18 +352,24 @@ func doConc(mode string, n int, fmtName, sub, fname string, es []entry) string {
 	start := make(chan struct{})
 	for i := 0; i < n; i++ {
 		wg.Add(1)
-		go func() {
+		go func(i int) {
 			defer wg.Done()
 			<-start
 			if mode == "proc" {
 				cmd := exec.Command(os.Args[0], "-child", url, dst, sub)
+				if td := os.Getenv("C20_STRACE_DIR"); td != "" {
+					// thorough tier: every caller runs under its own strace (trace validation against the protocol model)
+					cmd = exec.Command("strace", "-f", "-ttt", "-T", "-o", filepath.Join(td, fmt.Sprintf("c%d-p%d.txt", caseNo, i)),
+						"-e", "trace=flock,openat,rename,renameat,renameat2,unlink,unlinkat,newfstatat,mkdir,mkdirat",
+						os.Args[0], "-child", url, dst, sub)
+				}
 				if err := cmd.Run(); err != nil {
 					atomic.AddInt32(&nerr, 1)
 				}
 			} else if err := cc.VerifCheckDownloadAndExtractLib(url, dst, sub); err != nil {
 				atomic.AddInt32(&nerr, 1)
 			}
-		}()
+		}(i)
 	}
 	close(start)
 	wg.Wait()
